@@ -28,6 +28,7 @@ import (
 const (
 	vrtName   = "__vrt"
 	vtimeName = "__vtime"
+	vfsName   = "__vfs"
 )
 
 var pkgPatterns = []string{
@@ -50,6 +51,7 @@ type rewriter struct {
 	file      *ast.File
 	needVrt   bool
 	needVtime bool
+	needVfs   bool
 	changed   bool
 	n         int
 	stats     map[string]int
@@ -149,6 +151,23 @@ func (r *rewriter) post(c *astutil.Cursor) bool {
 		}
 
 	case *ast.SelectorExpr:
+		if r.isPkg(n.X, "os") {
+			switch n.Sel.Name {
+			case "MkdirAll", "OpenFile", "Chmod", "Rename", "Remove", "Stat":
+				r.stats["fs"]++
+				r.needVfs = true
+				r.changed = true
+				c.Replace(&ast.SelectorExpr{X: ast.NewIdent(vfsName), Sel: n.Sel})
+				return true
+			}
+		}
+		if r.isPkg(n.X, "path/filepath") && n.Sel.Name == "Glob" {
+			r.stats["fs"]++
+			r.needVfs = true
+			r.changed = true
+			c.Replace(&ast.SelectorExpr{X: ast.NewIdent(vfsName), Sel: n.Sel})
+			return true
+		}
 		if r.isPkg(n.X, "time") {
 			switch n.Sel.Name {
 			case "Now", "Since", "Until", "Sleep", "After", "NewTimer", "Timer":
@@ -428,6 +447,9 @@ func main() {
 			}
 			if r.needVrt {
 				astutil.AddNamedImport(p.Fset, f, vrtName, "verif/vrt")
+			}
+			if r.needVfs {
+				astutil.AddNamedImport(p.Fset, f, vfsName, "verif/vrt/vfs")
 			}
 			if r.needVtime {
 				astutil.AddNamedImport(p.Fset, f, vtimeName, "verif/vrt/vtime")
